@@ -51,6 +51,25 @@ class Gen:
     def word(self):
         return self.rng.choice(WORDS)
 
+    def namey(self, words):
+        """the nodes of a name / key / title: a word, or 2-3 adjacent pieces among words, templates and arguments
+        (markup in names is well formed; two templates may touch)"""
+        from mwparserfromhell.nodes import Argument, Template
+        rng = self.rng
+        if rng.random() < 0.6:
+            return [T(rng.choice(words))]
+        self.kinds.add("markup in a name")
+        out = []
+        for _ in range(rng.randint(2, 3)):
+            c = rng.random()
+            if c < 0.4:
+                out.append(T(rng.choice(words).strip() or "w"))
+            elif c < 0.8:
+                out.append(Template(W([T(rng.choice(["n", "m m"]))]), []))
+            else:
+                out.append(Argument(W([T(rng.choice(["1", "arg"]))])))
+        return merge(out)
+
     def inline(self, depth, nolinks=False, width=None, nostyle=False):
         """a list of nodes (well-formed, inline)"""
         from mwparserfromhell.nodes import Tag
@@ -84,18 +103,18 @@ class Gen:
                     params.append(Parameter(W([T(str(pos))]), W(self.inline(depth - 1, nolinks)), showkey=False))
                     pos += 1
                 else:
-                    params.append(Parameter(W([T(rng.choice(["k", "key ", " n1", "2x"]))]), W(self.inline(depth - 1, nolinks)), showkey=True))
-            return Template(W([T(rng.choice(["t", "tpl ", "Cite web", "a_b"]))]), params)
+                    params.append(Parameter(W(self.namey(["k", "key ", " n1", "2x"])), W(self.inline(depth - 1, nolinks)), showkey=True))
+            return Template(W(self.namey(["t", "tpl ", "Cite web", "a_b"])), params)
         if c < 0.42:
             self.kinds.add("argument")
             if rng.random() < 0.5:
-                return Argument(W([T(rng.choice(["1", "arg"]))]), W(self.inline(depth - 1, nolinks)))
-            return Argument(W([T(rng.choice(["1", "arg"]))]))
+                return Argument(W(self.namey(["1", "arg"])), W(self.inline(depth - 1, nolinks)))
+            return Argument(W(self.namey(["1", "arg"])))
         if c < 0.52 and not nolinks:
             self.kinds.add("wikilink")
             if rng.random() < 0.5:
-                return Wikilink(W([T(rng.choice(["Page", "File:x.png", "a#b"]))]), W(self.inline(depth - 1, True)))
-            return Wikilink(W([T(rng.choice(["Page", "Cat:é"]))]))
+                return Wikilink(W(self.namey(["Page", "File:x.png", "a#b"])), W(self.inline(depth - 1, True)))
+            return Wikilink(W(self.namey(["Page", "Cat:é"])))
         if c < 0.6 and not nolinks:
             self.kinds.add("external link")
             url = W([T(rng.choice(["http://", "https://", "ftp://", "mailto:", "//"]) + rng.choice(["example.com", "a.b/c?d=e"]))])
